@@ -722,6 +722,14 @@ func (w *world) acquire(ts *taskState, lk gsync.Locker, op sim.Op, i int) {
 				w.noteCancel(ts)
 				cn()
 			}, nil)
+		case op.E >= 1000 && w.c.Knob("deadline_ctx", 0) == 1 && w.be.Kind == backend.InMem:
+			// the caller limits the attempt with a deadline on the context itself (code that looks
+			// at ctx.Deadline() sees it) instead of cancelling from outside
+			cancel()
+			ctx, cancel = context.WithTimeout(context.Background(), time.Duration(op.E-1000))
+			c3 := ctx
+			ts.ctxLive = func() bool { return c3.Err() == nil }
+			e.Probe("attempt_with_deadline_context")
 		case op.E >= 1000:
 			d := time.Duration(op.E - 1000)
 			cn := cancel
